@@ -263,8 +263,7 @@ pub fn corner(b: u8, s: u64) -> Option<(u64, u64)> {
     }
 }
 
-/// Exact CGR points for as long as u128 holds them (S <= 2^20 => at least 100 points; the caller limits
-/// `max_points` to 126 - bits(S) for larger squares).
+/// Exact CGR points for as long as u128 holds them (S <= 2^20 => at least 100 points).
 /// Returns None if the sequence contains a non-nucleotide byte.
 pub fn cgr_exact(seq: &[u8], s: u64, max_points: usize) -> Option<Vec<(Dyadic, Dyadic)>> {
     let mut x = Dyadic { n: s as u128, d: 1 };
